@@ -307,10 +307,20 @@ class RestAPI(object):
             try:
                 params = json.loads(data.decode("utf8"))
             except ValueError as e:
-                params = ""
+                params = None
                 self.logger.error(
                     "Message body {} does not contain valid JSON".format(data)
                 )
+
+            """
+            Every action takes its arguments from a JSON object. Refuse any
+            other body here rather than failing in the action handlers.
+            """
+            if not isinstance(params, dict):
+                return aws_error(
+                    "SerializationException",
+                    "The request body must be a JSON object"
+                ), 400
 
             # ------------------------------------------------------------------
 
